@@ -196,6 +196,9 @@ def closure_form(t, coefs, dim):
 # ------------------------------------------------------------------------------------------
 # model semantics (numpy transcription of C13_forms.v)
 # ------------------------------------------------------------------------------------------
+COEF_SCALE = [1.0]      # multiplies every coefficient field (scaled twins: 2^+-40)
+
+
 class Data:
     def __init__(self, g, dof_n, matrixType):
         self.N = np.asarray(g.Get_N_pg(matrixType))[:, 0, :]               # (nPg, nPe)
@@ -205,7 +208,9 @@ class Data:
         self.n = max(self.dim, dof_n)
         self.dof_n = dof_n
         coords = np.asarray(g.Get_GaussCoordinates_e_pg(matrixType))
-        self.coefs = {"cx": 1.0 + 0.5 * coords[..., 0], "cy": 2.0 - 0.25 * coords[..., 1], "c2": np.full((self.Ne, self.nPg), 1.5)}
+        L = float(np.max(np.abs(np.asarray(g.coord)))) or 1.0          # coefficients vary by O(1) over the mesh at any length scale
+        k = COEF_SCALE[0]
+        self.coefs = {"cx": k * (1.0 + 0.5 * coords[..., 0] / L), "cy": k * (2.0 - 0.25 * coords[..., 1] / L), "c2": np.full((self.Ne, self.nPg), 1.5 * k)}
 
     def basis(self, i):
         """(fval (Ne,nPg,n), fgrad (Ne,nPg,n,n)) of local dof i: node = i // dof_n, dof = i % dof_n"""
@@ -304,7 +309,7 @@ def close(a, b, tol=TOL):
         return False, "non-finite"
     scale = max(1e-300, float(np.max(np.abs(b))), float(np.max(np.abs(a))))
     err = float(np.max(np.abs(a - b)))
-    if err <= tol * max(scale, 1e-12):
+    if err <= tol * scale:                    # purely relative: no absolute floor
         return True, "%.1e" % (err / scale)
     i = int(np.argmax(np.abs(a - b).ravel()))
     idx = np.unravel_index(i, a.shape)
@@ -450,7 +455,7 @@ def case_builtins(gname, mesh):
     return recs
 
 
-def case_simulations(seed):
+def case_simulations(seed, sL=1.0):
     """WeakForms simulation vs dedicated Thermal / Elastic: matrices and one solve"""
     from EasyFEA import Models, Simulations, ElemType, SolverType
     from EasyFEA.FEM import Field, BiLinearForm, LinearForm, Sym_Grad, Trace, MatrixType
@@ -458,10 +463,12 @@ def case_simulations(seed):
     recs = []
 
     def rec(name, ok, d, tag="generic"):
-        recs.append({"id": "simu:%s" % name, "what": name, "ok": bool(ok), "detail": d, "form": name, "kind": "simulation", "tag": tag})
+        recs.append({"id": "simu%s:%s" % ("" if sL == 1.0 else "@L=%g" % sL, name), "what": name, "ok": bool(ok), "detail": d, "form": name, "kind": "simulation", "tag": tag})
     mesh = Domain((0, 0), (1, 1), 0.5).Mesh_2D([], ElemType.TRI6, isOrganised=True)
     n0 = mesh.Nodes_Conditions(lambda x, y, z: x == 0)
     n1 = mesh.Nodes_Conditions(lambda x, y, z: x == 1)
+    if sL != 1.0:
+        mesh.coord = mesh.coord * sL           # scaled twin: same nodes, lengths x sL
     # ---------------- thermal: K, C, static and parabolic step
     k, c = 2.0, 3.0
     try:
@@ -977,6 +984,23 @@ def case_param_sequences(seed):
             rec(name + ": K after change back", *close(ws.Get_K_C_M_F()[0].toarray(), K0w.toarray()))
         except Exception:
             rec(name, False, traceback.format_exc()[-500:])
+    # near-equal changes (1e-6, 1e-9 relative, one ulp) must be observed like large ones
+    try:
+        es, mat = build_elastic(1.5)
+        lam, mu = mat.get_lambda(), mat.get_mu()
+        ws, wf = build_weak(1.5, lam, mu)
+        ws.Get_K_C_M_F()
+        for label, t1 in (("1e-6", 1.5 * (1 + 1e-6)), ("1e-9", 1.5 * (1 + 1e-9)), ("1ulp", float(np.nextafter(1.5, 2.0)))):
+            wf.thickness = t1
+            K1, _, M1, F1 = ws.Get_K_C_M_F()
+            fresh, _ = build_weak(t1, lam, mu)
+            Kf_, _, Mf_, Ff_ = fresh.Get_K_C_M_F()
+            for lab, A, B in (("K", K1, Kf_), ("M", M1, Mf_)):
+                D = (A - B)
+                e = float(np.max(np.abs(D.data))) if D.nnz else 0.0
+                rec("near-equal thickness %s: %s == fresh weak-form simulation (bitwise)" % (label, lab), e == 0.0, "max |diff| = %.3g (max |ref| %.3g)" % (e, float(np.max(np.abs(B.data)))))
+    except Exception:
+        rec("near-equal thickness", False, traceback.format_exc()[-500:])
     # scalar model: thickness change + solution
     try:
         from EasyFEA import SolverType
@@ -1003,6 +1027,120 @@ def case_param_sequences(seed):
     return recs
 
 
+def big_grid(n):
+    """(n x n) QUAD4 grid built without gmsh; (n+1)^2 nodes"""
+    from corr import c16_impl as M
+    xs = np.arange(n + 1, dtype=float)
+    X, Y = np.meshgrid(xs, xs)
+    coord = np.stack([X.ravel(), Y.ravel(), np.zeros(X.size)], axis=1)
+    i, j = np.meshgrid(np.arange(n), np.arange(n))
+    n0 = (j * (n + 1) + i).ravel()
+    conn = np.stack([n0, n0 + 1, n0 + n + 2, n0 + n + 1], axis=1)
+    return M._mesh([("QUAD4", conn)], coord)
+
+
+def case_large_system(tier):
+    """more than 46341 dofs (row * Ndof no longer fits a 32-bit integer): the matrices assembled by the
+    SIMULATION against Form.Assemble and an explicit int64 coo scatter-add of Integrate_e, symmetry,
+    constants in the kernel of K"""
+    from EasyFEA import Models, Simulations
+    from EasyFEA.FEM import Field, BiLinearForm, MatrixType, Sym_Grad, Trace
+    from scipy import sparse
+    recs = []
+
+    def rec(name, ok, d):
+        recs.append({"id": "large:%s" % name, "what": name, "ok": bool(ok), "detail": d, "form": name, "kind": "large-system", "tag": "generic"})
+
+    def coo(g, dof_n, Ke):
+        asm = np.asarray(g.Get_assembly_e(dof_n)).astype(np.int64)
+        m = asm.shape[1]
+        rows = np.repeat(asm, m, axis=1).ravel()
+        cols = np.tile(asm, (1, m)).ravel()
+        Nd = g.Ncoords * dof_n
+        return sparse.coo_matrix((np.asarray(Ke).ravel(), (rows, cols)), shape=(Nd, Nd)).tocsr()
+
+    def relerr(A, B):
+        D = (A - B).tocsr()
+        return (float(np.max(np.abs(D.data))) if D.nnz else 0.0) / float(np.max(np.abs(B.data)))
+    configs = [("scalar-216x216", 216, 1)] + ([("vector-160x160", 160, 2)] if tier == "thorough" else [])
+    for name, n, dof_n in configs:
+        try:
+            mesh = big_grid(n)
+            g = mesh.groupElem
+            fld = Field(g, dof_n)
+            if dof_n == 1:
+                fK = BiLinearForm(lambda u, v: 3.0 * u.grad.dot(v.grad))
+            else:
+                fK = BiLinearForm(lambda u, v: (2 * 2.0 * Sym_Grad(u) + 3.0 * Trace(Sym_Grad(u)) * np.eye(2)).ddot(Sym_Grad(v)))
+            fM = BiLinearForm(lambda u, v: 2.0 * u.dot(v))
+            ws = Simulations.WeakForms(mesh, Models.WeakForms(fld, fK, computeM=fM, thickness=1.0))
+            K, _, M, _ = ws.Get_K_C_M_F()
+            Nd = g.Ncoords * dof_n
+            rec("%s:Ndof=%d>46341" % (name, Nd), Nd > 46341, "Ndof = %d" % Nd)
+            for lab, mat, frm in (("K", K, fK), ("M", M, fM)):
+                ref = coo(g, dof_n, frm.Integrate_e(fld))
+                e = relerr(mat.tocsr(), ref)
+                rec("%s:%s simulation == coo scatter-add of Integrate_e" % (name, lab), e <= 1e-12, "max |diff| / max |ref| = %.3g" % e)
+                e2 = relerr(frm.Assemble(fld).tocsr(), ref)
+                rec("%s:%s Form.Assemble == coo scatter-add" % (name, lab), e2 <= 1e-12, "max |diff| / max |ref| = %.3g" % e2)
+                e3 = relerr(mat.tocsr(), mat.T.tocsr())
+                rec("%s:%s symmetric" % (name, lab), e3 <= 1e-12, "max |A - A'| / max |A| = %.3g" % e3)
+            for d in range(dof_n):
+                t = np.zeros(Nd)
+                t[d::dof_n] = 1.0
+                r = float(np.max(np.abs(K @ t))) / float(np.max(np.abs(K.data)))
+                rec("%s:K.translation[%d]=0" % (name, d), r <= 1e-12, "max |K t| / max |K| = %.3g" % r)
+        except Exception:
+            rec(name, False, traceback.format_exc()[-500:])
+    return recs
+
+
+def case_scaled_twins(tier):
+    """the same comparisons at nano / micro / milli / kilo length scales (through the coordinates) and
+    with coefficients x 2^+-40: every quantity is homogeneous under a change of units, all
+    tolerances are relative; and the predicted scaling laws K ~ s^(dim-2), M ~ s^dim"""
+    from corr import c16_impl as M_
+    from EasyFEA.FEM import Field, BiLinearForm, MatrixType
+    from EasyFEA.FEM.Operators import Bilinear
+    recs = []
+    base = {"TRI3-fan": M_.mesh_2d_fan, "TETRA4": M_.mesh_3d_tets}
+    scales = [(1e-9, 2.0 ** 40), (1e-6, 2.0 ** -40), (1e-3, 1.0), (1e3, 2.0 ** 40)] if tier == "thorough" else [(1e-6, 2.0 ** -40), (1e-9, 2.0 ** 40), (1e3, 1.0)]
+    for gname, mk in base.items():
+        ref_mesh = mk()
+        g0 = ref_mesh.groupElem
+        K0 = np.asarray(Bilinear.GradUGradV(g0, 1.0, MatrixType.rigi))
+        M0 = np.asarray(Bilinear.UV(g0, 1.0, 1, MatrixType.mass))
+        for sL, sC in scales:
+            tag = "%s@L=%g,c=2^%d" % (gname, sL, int(round(np.log2(sC))))
+            try:
+                mesh = mk()
+                mesh.coord = mesh.coord * sL
+                g = mesh.groupElem
+                COEF_SCALE[0] = sC
+                recs_ = case_builtins(tag, mesh)
+                for i in range(2):
+                    recs_ += case_random_form(tag, mesh, False, 7, i, 2)
+                    recs_ += case_random_form(tag, mesh, True, 7, i, 2)
+                COEF_SCALE[0] = 1.0
+                for r in recs_:
+                    r["id"] = "scaled:" + r["id"]
+                    r["kind"] = "scaled-" + r["kind"]
+                recs += recs_
+                dim = g.dim
+                f1 = Field(g, 1, MatrixType.rigi)
+                fm = Field(g, 1, MatrixType.mass)
+                for nm, got, ref in (("GradUGradV ~ s^(dim-2)", Bilinear.GradUGradV(g, 1.0, MatrixType.rigi), K0 * sL ** (dim - 2)),
+                                     ("UV ~ s^dim", Bilinear.UV(g, 1.0, 1, MatrixType.mass), M0 * sL ** dim),
+                                     ("form grad.grad ~ s^(dim-2)", BiLinearForm(lambda u, v: u.grad.dot(v.grad)).Integrate_e(f1), K0 * sL ** (dim - 2)),
+                                     ("form u.v ~ s^dim", BiLinearForm(lambda u, v: u.dot(v)).Integrate_e(fm), M0 * sL ** dim)):
+                    ok, d = close(got, ref, tol=1e-9)
+                    recs.append({"id": "scaled:%s:%s" % (tag, nm), "what": nm, "ok": ok, "detail": d, "form": nm, "kind": "scaled-homogeneity", "tag": "generic"})
+            except Exception:
+                COEF_SCALE[0] = 1.0
+                recs.append({"id": "scaled:%s" % tag, "what": "harness", "ok": False, "detail": traceback.format_exc()[-600:], "form": "", "kind": "harness", "tag": "generic"})
+    return recs
+
+
 def run(seed, tier, only=None):
     cases = []
     nform = 4 if tier == "quick" else 14
@@ -1016,9 +1154,12 @@ def run(seed, tier, only=None):
         except Exception:
             cases.append({"id": "group:%s" % gname, "what": "harness", "ok": False, "detail": traceback.format_exc()[-800:], "form": "", "kind": "harness", "tag": "generic"})
     cases += case_simulations(seed)
+    cases += case_simulations(seed, sL=1e-6)
     cases += case_simulations_F(seed)
     cases += case_shared_forms(seed, tier)
     cases += case_param_sequences(seed)
+    cases += case_large_system(tier)
+    cases += case_scaled_twins(tier)
     for gname, mesh in [(gn, m) for gn, m in groups(tier) if gn in ("TRI3-fan", "TETRA4", "QUAD4-skew")] + [("TRI3-surf3d", surface_mesh_3d())]:
         try:
             cases += case_field_object_ops(gname, mesh)
